@@ -99,6 +99,7 @@ Proof.
   assert (Hpp : (1 <= per_page size)%Z).
   { unfold per_page. destruct (Z.eqb_spec size 0); [|lia]. pose proof page_size_pos. lia. }
   unfold GetRelationTuples.
+  assert (Hnn : (size <? 0)%Z = false) by (apply Z.ltb_ge; lia). rewrite Hnn; clear Hnn.
   assert (EA : filter (fun r => (match tok with TokId n => n | _ => 0%N end <? r_shard r)%N) (matching nid q d) = A).
   { unfold A, after, tok_last. reflexivity. }
   destruct tok as [|n|]; [| |congruence]; rewrite EA; clear EA.
@@ -119,6 +120,11 @@ Proof.
   all: assert (Hfk : firstn k A = rev rk ++ [x]) by (rewrite <- (rev_involutive (firstn k A)), Er; reflexivity).
   all: rewrite Hfk, last_last; reflexivity.
 Qed.
+
+Lemma get_bad_token nid q size d : (0 <= size)%Z -> GetRelationTuples nid q size TokMalformed d = RErr E_BadToken.
+Proof. intros H. unfold GetRelationTuples. assert (Hnn : (size <? 0)%Z = false) by (apply Z.ltb_ge; lia). now rewrite Hnn. Qed.
+Lemma get_negative_size nid q size tok d : (size < 0)%Z -> GetRelationTuples nid q size tok d = RErr E_BadRequest.
+Proof. intros H. unfold GetRelationTuples. apply Z.ltb_lt in H. now rewrite H. Qed.
 
 Lemma pages_from nid q size d :
   (0 <= size)%Z -> ssorted (matching nid q d) ->
